@@ -44,6 +44,13 @@ def cases(tier, seed):
                     if form in ("int", "int_e") and fr[0] * 0.5 != int(fr[0] * 0.5) and fr != [1.0, 0.0] and fr != [1.0, 1e7]:
                         continue
                     yield dict(kind="hull", frame=fr, sub=list(sub), form=form)
+    # float32 query points / grid coordinates next to float64 data at offsets of 1e7 with unit spacing (every value is exactly
+    # representable in float32): seed C16-10, statistics turned into Python floats and then subtracted in float32
+    for k in ks:
+        for sub in itertools.combinations(range(16), k):
+            if sum(sub) % 3 == seed % 3 or tier == "thorough":
+                for form in ("f32q", "f32grid"):
+                    yield dict(kind="hull", frame=[2.0, 1.0e7], sub=list(sub), form=form)
     yield dict(kind="hull_invalid")
     for nn in (2, 3, 4, 5):
         for ne in (2, 3, 4, 5):
@@ -61,7 +68,7 @@ def cases(tier, seed):
                                     # grids look like) / through make_xarray_grid; rotates over the cases (seed C16-8)
                                     nbuild += 1
                                     yield dict(kind="project", nn=nn, ne=ne, hole=hole, proj=proj, method=method, anti=anti, req=req, named=named,
-                                               build=("ne", "en", "verde")[nbuild % 3])
+                                               build=("ne", "en", "verde")[nbuild % 3], extra2d=(nbuild % 4 == 1))
     for bad in ("dataset", "1d", "3d", "method"):
         yield dict(kind="project_invalid", bad=bad)
 
@@ -153,12 +160,17 @@ def run(case, rec):
                 dn = dn.astype(np.int64)
         if form == "F":
             qe, qn = np.asfortranarray(qe), np.asfortranarray(qn)
+        if form in ("f32q", "f32grid"):
+            if not (np.array_equal(qe.astype(np.float32).astype(float), qe) and np.array_equal(qn.astype(np.float32).astype(float), qn)):
+                rec.trivial = True
+                return rec.skip("query lattice not representable in float32 in this frame")
+            qe, qn = qe.astype(np.float32), qn.astype(np.float32)
         pkw = {}
         if form in ("proj_array", "proj_grid"):
             # the projection is applied to BOTH the data and the query points / grid nodes (a rotation plus scaling keeps hull
             # membership of every lattice point): seed C16-r3_1
             pkw["projection"] = lambda a, b: (2 * (np.asarray(a) + np.asarray(b)) + 7, 3 * (np.asarray(a) - np.asarray(b)) - 1)
-        if form in ("grid", "proj_grid"):
+        if form in ("grid", "proj_grid", "f32grid"):
             vals = np.arange(121.0).reshape(11, 11) + 1.0
             grid = xr.Dataset({"v": (("northing", "easting"), vals)}, coords={"easting": qe[0, :], "northing": qn[:, 0]})
             got = call(rec, vd.convexhull_mask, (de, dn), grid=grid, **pkw)
@@ -228,6 +240,9 @@ def run(case, rec):
         da = xr.DataArray(vals, coords={"northing": north, "easting": east}, dims=("northing", "easting"))
     if case["named"]:
         da.name = "temp"
+    if case.get("extra2d"):
+        # a 2-D non-dimension coordinate travels with the grid (seed C16-9: table columns taken by position)
+        da = da.assign_coords(upward=(("northing", "easting"), 1000.0 + 7.0 * np.arange(vals.size, dtype=float).reshape(vals.shape)))
     pf = _projection(case["proj"])
     valid = [(i, j) for i in range(nn) for j in range(ne) if not np.isnan(vals[i, j])]
     pe, pn = pf(np.array([east[j] for i, j in valid]), np.array([north[i] for i, j in valid]))
